@@ -141,6 +141,30 @@ class _Idioms(ast.NodeTransformer):
             return ast.copy_location(ast.Attribute(value=node.args[0].value, attr="ndim", ctx=ast.Load()), node)
         return node
 
+    def visit_FunctionDef(self, node):
+        # an annotated assignment of a LOCAL (`x: NDArray = f(y)`) is the plain assignment `x = f(y)` for every analysis here: the
+        # annotation of a local is never evaluated.  Class bodies (dataclass / NamedTuple fields) and module level are left alone.
+        self.generic_visit(node)
+
+        class _Ann(ast.NodeTransformer):
+            def visit_FunctionDef(self, n):  # nested functions are visited by the outer transformer on their own
+                return n
+
+            visit_AsyncFunctionDef = visit_FunctionDef
+
+            def visit_ClassDef(self, n):
+                return n
+
+            def visit_AnnAssign(self, n):
+                if n.value is not None and isinstance(n.target, (ast.Name, ast.Attribute, ast.Subscript)):
+                    return ast.copy_location(ast.Assign(targets=[n.target], value=n.value, type_comment=None), n)
+                return n
+
+        node.body = [_Ann().visit(st) if not isinstance(st, (ast.FunctionDef, ast.AsyncFunctionDef, ast.ClassDef)) else st for st in node.body]
+        return node
+
+    visit_AsyncFunctionDef = visit_FunctionDef
+
     def visit_Subscript(self, node):
         self.generic_visit(node)
         sl = node.slice
